@@ -210,6 +210,55 @@ def run_case(case, acc, order):
                     '(eager and lazy)' % len(col_selectors(nc))})
 
 
+def run_pairs(case, acc, order):
+    lay = case['layout']
+    n = int(sum(lay['parts']))
+    fam = 'cbin' if lay['backend'].startswith('cbin') else lay['backend']
+    rows = [d for d in row_indices(n, with_lists=(fam != 'cbin'))
+            if (d['k'] == 'int' and d['t'] == 'int' and d['v'] in (0, n - 1, -1)) or
+            (d['k'] == 'slice' and d['v'] in ([None, None, None], [1, n - 1, None], [-2, None, None],
+                                              [0, 1, None])) or
+            (d['k'] == 'idx' and d['t'] == 'int64' and len(d['v']) in (1, n) or
+             (d['k'] == 'idx' and d['t'] == 'list' and d['v'] == [0, n - 1]))]
+    cols = col_selectors(lay['n_channels'])[:4]
+    ops = [(rd, cd) for rd in rows for cd in cols]
+    with core.Scratch() as d:
+        reader, A = layouts.build_reader(d, lay)
+        try:
+            acc.state()
+
+            def read(rd, cd):
+                r, c = make_row(rd), make_col(cd)
+                rr = [int(r)] if rd['k'] == 'int' else r
+                exp = A[rr] if c is None else A[rr][:, c]
+                exp = exp.astype(exp.dtype.newbyteorder('='))
+                try:
+                    got = reader[r] if c is None else reader[r, c]
+                    if not isinstance(got, np.ndarray) and hasattr(got, '_append_op'):
+                        got = got[:]
+                    got = np.asarray(got)
+                    got = got.astype(got.dtype.newbyteorder('='))
+                except Exception as e:
+                    got = e
+                return exp, got
+            for i, (r1, c1) in enumerate(ops):
+                for j, (r2, c2) in enumerate(ops):
+                    read(r1, c1)
+                    exp, got = read(r2, c2)
+                    acc.step(i != j, 'pair')
+                    if not (isinstance(got, np.ndarray) and arr_equal(got, exp)):
+                        sig = '%s/index-history/%s/second-read-wrong-after-another-read' % (PROP, fam)
+                        acc.violation(sig, core.make_record(
+                            PROP, 'index-history', sig, case=case,
+                            trace=[{'rows': r1, 'cols': c1}, {'rows': r2, 'cols': c2}],
+                            expected=describe(exp), observed=describe(got)), order * 10 ** 6 + i * 1000 + j)
+                        return
+        finally:
+            layouts.close_reader(reader)
+    if order % 7 == 0:
+        acc.sample({'read_pairs_on': lay, 'ops': len(ops)})
+
+
 def layout_cases(ctx):
     thorough = ctx.thorough
     N = 8 if thorough else 6
@@ -271,8 +320,20 @@ def explore(ctx):
                        'it as unsupported)', 'index lists are not applied to compressed readers '
                        '(their decoder does not offer it)']
     ctx.run_cases(run_case, cases, chunk=4, sweep='layouts')
+    # histories of two reads on one reader
+    pcases = []
+    for backend, parts, extra in (('flat', [2, 3], {'offset': 5}), ('flat', [1, 2, 2], {'offset': 0}),
+                                  ('array', [5], {}), ('npy', [5], {}),
+                                  ('cbin', [5], {'chunk': 2}), ('cbin_reader', [5], {'chunk': 2, 'threads': 2})):
+        for dt in ('int16', 'float32'):
+            lay = dict({'backend': backend, 'dtype': dt, 'n_channels': 3, 'parts': parts,
+                        'sample_rate': 2 / 600.0, 'fill': ctx.seed}, **extra)
+            pcases.append({'layout': lay, 'pairs': True})
+    ctx.run_cases(run_pairs, pcases, chunk=1, sweep='read-pairs')
 
 
 def replay(record):
     imports()
+    if (record.get('case') or {}).get('pairs'):
+        return core.replay_case(run_pairs, record)
     return core.replay_case(run_case, record)
